@@ -268,7 +268,13 @@ var SmallModes = []uint32{1, 2, 3, 5, 7, 64, 1024, 1025}
 // chunk sizes only on small batches: the chunk table has n/size entries per term).
 func Mode(r *rand.Rand, n int) uint32 {
 	if n > 400 {
+		if r.Intn(6) == 0 {
+			return uint32(40 + r.Intn(985)) // any fixed size 40..1024
+		}
 		return []uint32{64, 100, 1024, 1025, 1025}[r.Intn(5)]
+	}
+	if r.Intn(6) == 0 {
+		return uint32(1 + r.Intn(1024)) // any fixed size 1..1024
 	}
 	return SmallModes[r.Intn(len(SmallModes))]
 }
